@@ -25,6 +25,7 @@ func runC06(c *Check, tier string) {
 	ruleLoadPathErrors(c, "R06g")
 	ruleR06h(c)
 	ruleR06i(c)
+	ruleR06l(c)
 	// what is restored is what was stored: the store path delivers whole blobs under their own digests
 	useFamily(c, "R06k", famStore, 20)
 	// a restore that swallows its download errors reports success with files missing
@@ -562,4 +563,51 @@ func ruleLoadPathErrors(c *Check, rule string) {
 		}
 	}
 	requireNoDroppedErrors(c, rule, fns, nil)
+}
+
+// R06l: the recorded permission is consulted on every way out of a file restore. A restore that is skipped
+// because the bytes at the output path already hash to the recorded digest says nothing about the mode: a
+// cached executable whose x bit was dropped (chmod -x, an archive extracted without modes) must be runnable
+// again after the restore, like one whose bytes had to be fetched.
+func ruleR06l(c *Check) {
+	c.Rule("R06l", "in every handler Load that restores a record carrying an executable flag of its own (gen.FileOutput.IsExecutable), each successful return is preceded by a read of that flag: the skip-because-the-content-matches path restores the permission too", 1)
+	flag := fk("proto/gen.FileOutput", "IsExecutable")
+	h := c.P.Type("output/handlers", "Handler")
+	n := 0
+	for _, load := range methodImpls(c, h, "Load") {
+		readsFlag := func(in ssa.Instruction) bool {
+			switch x := in.(type) {
+			case *ssa.FieldAddr:
+				return engine.FieldKeyOf(x.X.Type(), x.Field) == flag
+			case *ssa.Field:
+				return engine.FieldKeyOf(x.X.Type(), x.Field) == flag
+			case *ssa.Call:
+				if hf := x.Call.StaticCallee(); hf != nil && readsField(c, hf, flag) && engine.InPackage(hf, "proto/gen") {
+					return true
+				}
+			}
+			return false
+		}
+		uses := false
+		for _, b := range load.Blocks {
+			for _, in := range b.Instrs {
+				if readsFlag(in) {
+					uses = true
+				}
+			}
+		}
+		if !uses {
+			continue // a kind without a flag of its own (directories carry it per file inside the tree digest)
+		}
+		n++
+		reach, at := nilReturnReachable(load, engine.PathQuery{CutInstr: readsFlag}, 0)
+		pos := c.P.Pos(load.Pos())
+		if at != nil {
+			pos = c.P.InstrPos(at)
+		}
+		c.Require(!reach, "R06l", "mode-consulted-on-every-success/"+c.P.FuncName(load), "every successful return of the restore has read the recorded executable flag", "the restore can report success without looking at the recorded executable flag (the shortcut taken when the local content already matches): a cached executable whose x bit was removed in the workspace stays non-executable after it was 'restored'", pos)
+	}
+	if n == 0 {
+		c.Unknown("R06l", "mode-consulted-on-every-success", "no handler Load reads gen.FileOutput.IsExecutable", "-")
+	}
 }
